@@ -96,3 +96,21 @@ Proof.
       cbn [l_self l_new l_need lcond_eval m_auto_build andb with_self put_rm set_rm2]. change (PT_G2 =? PT_G) with false. cbv beta iota.
       reflexivity.
 Qed.
+
+(* ------------------------------------------------------------------ CoreEnforcer.build_role_links *)
+Definition run_build_role_links (k : mkind) (s : mstate) : mstate * val :=
+  ldrun k None LDFUEL build_role_links_gen s.
+
+Theorem tie_build_role_links k s :
+  run_build_role_links k s =
+  (fst (Mgmt.build_role_links k s), match snd (Mgmt.build_role_links k s) with None => ok (VL []) | Some c => verr c end).
+Proof.
+  unfold run_build_role_links, ldrun, LDFUEL, Mgmt.build_role_links.
+  let b := eval lazy in build_role_links_gen in change build_role_links_gen with b.
+  destruct s as [p g g2 rm rm2 asv abd ant enb db pr].
+  cbn [ldblock ldexec l_self l_new l_need with_self]. unfold clear_rms, with_self.
+  cbv [set_rm set_rm2 m_p m_g m_g2 m_rm m_rm2 m_auto_save m_auto_build m_auto_notify m_enabled m_db m_prio_on l_self l_new l_need].
+  destruct (links_add (g_count k PT_G) (clear_rmk rm) g EGroupArity) as [rmA [cA|]]; [reflexivity|].
+  cbv [set_rm set_rm2 m_p m_g m_g2 m_rm m_rm2 m_auto_save m_auto_build m_auto_notify m_enabled m_db m_prio_on l_self l_new l_need].
+  destruct (links_add 2 (RMPlain (rm_clear rm2)) g2 EGroupArity) as [rmB [cB|]]; reflexivity.
+Qed.
